@@ -43,6 +43,12 @@ CHECKS = {
  "C18": ("exploration", "5.C18", "as C17 with impostor endpoints in every position: certificates from a foreign CA, self-signed, expired / not yet valid in simulated time, valid for another name, servers offering only TLS <= 1.1, servers that require / request / ignore client certificates, CA bundles of 1..3 files; no CSR may ever reach an impostor's handler, the reply of an impostor is never returned, a later genuine endpoint is still used, genuine servers observe exactly the configured client certificate over TLS >= 1.2",
          "real crypto/tls and crypto/x509 on both sides; sampling",
          "deterministic simulation: impostor servers on a simulated network"),
+ "C11": ("exploration", "5.C11", "2..16 client tasks x 1..6 operations (list / signers / sign / add / remove / remove-all / add-hardware-certificate / lock / unlock / extension / raw forward / sign through a handed-out signer) on one shared shim over the reference agent, every lock operation and every transport read/write being a scheduling point of the seeded token scheduler (random walk, PCT, bounded pre-emption), built with -race: (1) no race detector report whose two accessing functions are code under test - the scheduler is invisible to the detector, so a serialised run reports exactly the accesses not ordered by the code's own locks; (2) transport discipline on the upstream connection (each request frame from one task, each reply read by its requester); (3) replies carry the caller's own tag; (4) no deadlock within the step cap; (5) the recorded history plus the final upstream snapshot is linearizable against the sequential shim model (porcupine)",
+         "sync is replaced by the scheduler-aware simsync in agent/shimagent, agent/yubiagent (build overlay) and in a copy of x/crypto's agent client; goroutines started by code under test would run unscheduled (none today); fmt/sync.Pool inside the code under test can add happens-before edges that hide a race in some schedules; porcupine Unknown (timeout) is counted, never reported; sampling of schedules",
+         "deterministic simulation: seeded schedule exploration with race-detector, transport and linearizability oracles"),
+ "C20": ("exploration", "5.C20", "1..8 waiters (through the real yubiagent client -> ServeAgent -> concrete server, and direct Server.Wait callers) on equal and different codes 0..255 and requester connections sending requests with matching and non-matching codes, under the token scheduler: a waiter released during the run must have had a request with its code in flight after it registered; at every quiescent point (all tasks blocked) a still parked waiter must not have been preceded by a later request with its code; codes outside the table return without parking; no panic, no deadlock",
+         "the harness releases the waiters left at quiescent points itself (clean-up broadcasts, accounted per code); request 'received' is approximated by the client-side send/reply interval; sampling of schedules",
+         "deterministic simulation: seeded schedule exploration with condition-variable bookkeeping as oracle"),
 }
 NA = {
  "C05": "pure function of its input (KeyID Marshal/Unmarshal): no schedule, clock, transport, fault or history for a simulator to control; deciding it means generating inputs, which is another technique (DESIGN.md section 6)",
@@ -51,8 +57,7 @@ NA = {
  "C16": "pure functions of bytes (lenient certificate parser, PEM bundles, ModHex); the parser never consults the clock (DESIGN.md section 6)",
  "C19": "pure total function of a KeyID and one option (certificate type/label/principal suffix) (DESIGN.md section 6)",
 }
-PENDING = {k: "check not built yet (in progress, see DESIGN.md section 5); not claimed until it runs" for k in
-           ["C11", "C20"]}
+PENDING = {}
 
 def main():
     checks = []
